@@ -88,6 +88,12 @@ func runSelfTest(spec *propSpec, b *build, a *agg) string {
 		if herr != "" {
 			return herr
 		}
+		// Statically known uncontrolled map ranges (pointer, float keys).
+		loose := false
+		if un, _ := b.instr["uncontrolled_map_ranges"].([]interface{}); len(un) > 0 {
+			loose = true
+		}
+		limited := 0
 		ref := logs[key{procsList[0], 0}]
 		if len(ref) == 0 {
 			return "self-test produced no events for " + p.label
@@ -105,6 +111,16 @@ func runSelfTest(spec *propSpec, b *build, a *agg) string {
 				n = len(log)
 			}
 			for i := 0; i < n; i++ {
+				if loose || strings.Contains(log[i], "uncontrolled=") && !strings.HasSuffix(log[i], "uncontrolled=0") || !strings.HasSuffix(ref[i], "uncontrolled=0") && strings.Contains(ref[i], "uncontrolled=") {
+					// Some map of the code under test is ranged in Go's own order (keys
+					// without a canonical order): the interleaving legitimately differs
+					// between processes; only the verdict has to agree.
+					if verdictOf(log[i]) != verdictOf(ref[i]) {
+						return fmt.Sprintf("self-test %s: run %d has different verdicts in two processes (GOMAXPROCS=%d rep=%d):\n  %s\n  %s", p.label, i, k.procs, k.rep, ref[i], log[i])
+					}
+					limited++
+					continue
+				}
 				if log[i] != ref[i] {
 					return fmt.Sprintf("self-test %s: run %d differs between processes (GOMAXPROCS=%d rep=%d):\n  %s\n  %s", p.label, i, k.procs, k.rep, ref[i], log[i])
 				}
@@ -113,8 +129,25 @@ func runSelfTest(spec *propSpec, b *build, a *agg) string {
 				return fmt.Sprintf("self-test %s: logs have different lengths (%d vs %d) at GOMAXPROCS=%d", p.label, len(ref), len(log), k.procs)
 			}
 		}
+		if limited > 0 {
+			a.counters["self-test: comparisons limited to the verdict because a map is ranged in Go's own order ("+p.label+")"] = int64(limited)
+		}
 		a.counters["self-test: seeds replayed identically ("+p.label+")"] = int64(len(ref))
 		a.counters["self-test: processes compared ("+p.label+")"] = int64(len(logs))
 	}
 	return ""
+}
+
+// verdictOf extracts "idx=… class=…" from an event line.
+func verdictOf(line string) string {
+	var idx, class string
+	for _, f := range strings.Fields(line) {
+		if strings.HasPrefix(f, "idx=") {
+			idx = f
+		}
+		if strings.HasPrefix(f, "class=") {
+			class = f
+		}
+	}
+	return idx + " " + class
 }
